@@ -280,3 +280,58 @@ Proof.
   rewrite map_flat_map_comm; apply flat_map_ext; intro fl.
   rewrite map_map; reflexivity.
 Qed.
+
+(* the entries read from a document, without their headings: the triples of its sections, in order *)
+Definition sec_triples {P : Type} (bs : list (block P)) : list (P * string * Z) :=
+  flat_map (fun b => match b with BPlain _ => [] | BSec p _ v => triples [(p, v)] end) bs.
+
+Lemma drop_heading_tag : forall (P : Type) hd (p : P) v, map drop_heading (tag hd p v) = triples [(p, v)].
+Proof.
+  intros P hd p v; unfold tag, triples; cbn [flat_map fst snd]; rewrite app_nil_r.
+  rewrite map_flat_map_comm; apply flat_map_ext; intro fl; rewrite map_map; reflexivity.
+Qed.
+
+Lemma drop_heading_doc_out : forall (P : Type) keys headings (bs : list (block P)) hd,
+  map drop_heading (doc_out P keys headings hd bs) = sec_triples bs.
+Proof.
+  intros P keys headings bs; induction bs as [|b bs IH]; intro hd; [reflexivity|].
+  destruct b as [ls|p t v]; cbn [doc_out sec_triples flat_map].
+  - rewrite IH; reflexivity.
+  - unfold entry; rewrite map_app, IH, drop_heading_tag; reflexivity.
+Qed.
+
+Lemma sec_triples_app : forall (P : Type) (a b : list (block P)), sec_triples (a ++ b)%list = (sec_triples a ++ sec_triples b)%list.
+Proof. intros; unfold sec_triples; apply flat_map_app. Qed.
+
+Lemma sec_triples_sec_blocks : forall (P : Type) (sec : P -> string) (items : findings P),
+  sec_triples (sec_blocks sec items) = triples items.
+Proof.
+  intros P sec items; induction items as [|kv items IH]; [reflexivity|].
+  change (sec_triples (sec_blocks sec (kv :: items)))
+    with (triples [(fst kv, snd kv)] ++ sec_triples (sec_blocks sec items))%list.
+  rewrite IH; unfold triples; cbn [flat_map fst snd]; rewrite app_nil_r; reflexivity.
+Qed.
+
+(* blocks of one category seen as blocks of the whole report *)
+Definition map_block {A B : Type} (tg : A -> B) (b : block A) : block B :=
+  match b with
+  | BPlain ls => BPlain ls
+  | BSec p t v => BSec (tg p) t v
+  end.
+
+Lemma doc_lines_map_block : forall (A B : Type) (tg : A -> B) (bs : list (block A)),
+  doc_lines (map (map_block tg) bs) = doc_lines bs.
+Proof.
+  intros A B tg bs; unfold doc_lines; induction bs as [|b bs IH]; [reflexivity|].
+  cbn [map flat_map]; rewrite IH; destruct b; reflexivity.
+Qed.
+
+Lemma sec_triples_map_block : forall (A B : Type) (tg : A -> B) (bs : list (block A)),
+  sec_triples (map (map_block tg) bs) = map (fun t => (tg (fst (fst t)), snd (fst t), snd t)) (sec_triples bs).
+Proof.
+  intros A B tg bs; unfold sec_triples; induction bs as [|b bs IH]; [reflexivity|].
+  cbn [map flat_map]; rewrite map_app, IH; f_equal.
+  destruct b as [ls|p t v]; cbn [map_block]; [reflexivity|].
+  unfold triples; cbn [flat_map fst snd]; rewrite !app_nil_r.
+  rewrite map_flat_map_comm; apply flat_map_ext; intro fl; rewrite map_map; reflexivity.
+Qed.
